@@ -8,6 +8,7 @@ pub mod c01;
 pub mod c02;
 pub mod c03;
 pub mod c04;
+#[cfg(feature = "hooks")]
 pub mod c05;
 pub mod c06;
 pub mod c07;
@@ -16,12 +17,16 @@ pub mod c08;
 pub mod c09;
 pub mod c10;
 pub mod c11;
+#[cfg(feature = "hooks")]
 pub mod c12;
+#[cfg(feature = "hooks")]
 pub mod c13;
+#[cfg(feature = "hooks")]
 pub mod arith;
 pub mod c14;
 #[cfg(feature = "fv")]
 pub mod c15;
+#[cfg(feature = "hooks")]
 pub mod c16;
 pub mod shared;
 
@@ -48,6 +53,7 @@ pub fn run(what: &str, ctx: &Ctx, _extra: &[String]) -> Option<Report> {
         "C02" => c02::run(ctx),
         "C03" => c03::run(ctx),
         "C04" => c04::run(ctx),
+        #[cfg(feature = "hooks")]
         "C05" => c05::run(ctx),
         "C06" => c06::run(ctx),
         "C07" => c07::run(ctx),
@@ -55,8 +61,11 @@ pub fn run(what: &str, ctx: &Ctx, _extra: &[String]) -> Option<Report> {
         "C09" => c09::run(ctx),
         "C10" => c10::run(ctx),
         "C11" => c11::run(ctx),
+        #[cfg(feature = "hooks")]
         "C12" => c12::run(ctx),
+        #[cfg(feature = "hooks")]
         "C13" => c13::run(ctx),
+        #[cfg(feature = "hooks")]
         "C16" => c16::run(ctx),
         #[cfg(feature = "fv")]
         "C15" => c15::run(ctx),
